@@ -95,10 +95,21 @@ impl Prop for Sched {
         }
     }
     fn floors() -> Vec<(&'static str, u32)> {
-        vec![("user_request_waited", 50), ("poll_ran_twice", 200), ("keep_alive_sent", 5)]
+        vec![
+            ("user_request_waited", 50),
+            ("poll_ran_twice", 200),
+            ("keep_alive_sent", 5),
+        ]
     }
     fn strategy(tier: Tier) -> BoxedStrategy<Case> {
-        let assoc = (proptest::collection::vec(prop_oneof![Just(20u16), Just(50), Just(100), 20u16..500], 0..=3), proptest::option::weighted(0.3, 100u16..1500)).prop_map(|(polls, keep_alive)| AssocSpec { polls, keep_alive });
+        let assoc = (
+            proptest::collection::vec(
+                prop_oneof![Just(20u16), Just(50), Just(100), 20u16..500],
+                0..=3,
+            ),
+            proptest::option::weighted(0.3, 100u16..1500),
+        )
+            .prop_map(|(polls, keep_alive)| AssocSpec { polls, keep_alive });
         let op = prop_oneof![
             3 => any::<u16>().prop_map(Op::Submit),
             1 => (any::<u16>(), any::<u16>()).prop_map(|(a, p)| Op::Demand(a, p)),
@@ -106,7 +117,17 @@ impl Prop for Sched {
         ];
         let reply = prop_oneof![6 => Just(Reply::Prompt), 2 => (1u16..199).prop_map(Reply::Late), 1 => Just(Reply::Never)];
         let n = if tier == Tier::Quick { 20 } else { 50 };
-        (proptest::collection::vec(assoc, 1..=4), proptest::collection::vec(op, 1..n), proptest::collection::vec(reply, 1..8)).prop_map(|(assocs, ops, replies)| Case { assocs, ops, replies }).boxed()
+        (
+            proptest::collection::vec(assoc, 1..=4),
+            proptest::collection::vec(op, 1..n),
+            proptest::collection::vec(reply, 1..8),
+        )
+            .prop_map(|(assocs, ops, replies)| Case {
+                assocs,
+                ops,
+                replies,
+            })
+            .boxed()
     }
     fn run(case: &Case) -> CaseOut {
         let rt = runtime();
@@ -144,14 +165,24 @@ async fn run_case(case: &Case) -> CaseOut {
             let pl = rig.polls.clone();
             tokio::spawn(Counted::new(
                 async move {
-                    if let Ok(ph) = h.add_poll(ReadRequest::class_scan(Classes::new(false, poll_classes(p))), period_d).await {
+                    if let Ok(ph) = h
+                        .add_poll(
+                            ReadRequest::class_scan(Classes::new(false, poll_classes(p))),
+                            period_d,
+                        )
+                        .await
+                    {
                         slot.lock().unwrap().insert((i, p), ph);
                     }
                 },
                 pl,
             ));
             rig.settle().await;
-            ps.push(PollState { period: *period as u64, due: rig.now_ms() + *period as u64, running: false });
+            ps.push(PollState {
+                period: *period as u64,
+                due: rig.now_ms() + *period as u64,
+                running: false,
+            });
         }
         if ps.len() >= 2 {
             out.nontrivial = true;
@@ -328,7 +359,11 @@ async fn run_case(case: &Case) -> CaseOut {
                 let id = next_user;
                 next_user += 1;
                 let mut h = rig.assocs[&addr(a)].handle.clone();
-                let req = ReadRequest::SingleHeader(ReadHeader::two_byte_range(crate::app::variations::Variation::Group30Var0, id as u16, id as u16));
+                let req = ReadRequest::SingleHeader(ReadHeader::two_byte_range(
+                    crate::app::variations::Variation::Group30Var0,
+                    id as u16,
+                    id as u16,
+                ));
                 let _p = rig.submit("read", async move { h.read(req).await });
                 rig.settle().await;
                 queue[a].push((id, rig.now_ms()));
@@ -364,7 +399,9 @@ async fn run_case(case: &Case) -> CaseOut {
                     // next instant at which the harness has something to do
                     let mut next = end;
                     if let Some(o) = &outstanding {
-                        next = next.min(o.reply_at.unwrap_or(o.t_tx + TIMEOUT)).max(now + 1);
+                        next = next
+                            .min(o.reply_at.unwrap_or(o.t_tx + TIMEOUT))
+                            .max(now + 1);
                     }
                     next = next.min(now + 10);
                     rig.advance(next - now).await;
